@@ -50,3 +50,16 @@ package types
 //@   assert[asymmetric] !(ij && ji)
 //@   assert[transitive] ij && jk ==> ik
 //@   assert[total] a[i].Name != a[j].Name ==> ij || ji
+
+// ---- C13: digests and fixed-width images -----------------------------------------------------------------------------------
+// NewHash(data) = SHA3-256(data) as a 32-byte array: external cryptography, ASSUMED to be a function of the input bytes.
+//@ func NewHash(data)
+//@   trusted
+//@   ensures result == nom.sha3v(bytesval(data))
+//@   modifies nothing
+
+// hash || big-endian height
+//@ func HashHeight.Bytes(b)
+//@   requires b != nil
+//@   ensures bytesval(result) == bcat(arrbytes(b.Hash, 32), common.be64enc(b.Height))
+//@   modifies nothing
